@@ -520,7 +520,7 @@ pub fn run_sequence(spec: &SSpec, seq: &[WOp], parity_odd: bool, stats: &mut Sta
     }
     stats.execs += 1;
     *arena() = [GUARD; ARENA];
-    let res = oracle::subject(|| -> Result<Option<(usize, usize, Option<usize>)>, Fail> {
+    let res = oracle::subject(|| catch_unwind(AssertUnwindSafe(|| -> Result<Option<(usize, usize, Option<usize>)>, Fail> {
         let mut b = Builder { next: 0 };
         let (mut t, mut m) = b.build(spec);
         observe(&mut t, &m)?;
@@ -538,7 +538,11 @@ pub fn run_sequence(spec: &SSpec, seq: &[WOp], parity_odd: bool, stats: &mut Sta
         };
         let lim = if let SM::Limit(_, l) = &m { Some(*l) } else { None };
         Ok(Some((m.rem(), first, lim)))
-    });
+    })));
+    let res = match res {
+        Ok(r) => r,
+        Err(_) => Err(f11("unexpected-panic", "an observation (remaining_mut/chunk_mut/get_ref) or construction/drop of the target panicked".into())),
+    };
     if !tracked {
         return res;
     }
